@@ -7,7 +7,7 @@ int nondet_int(void); double nondet_double(void);
 void __VERIFIER_assume(int c){ __CPROVER_assume(c); }
 #define A(n) if(id==n){ __CPROVER_assert(c, "K" #n); return; }
 void vp_assert(uint32_t c, uint32_t id){
-  A(11) A(12) A(21) A(22) A(23) A(24) A(25) A(26) A(31) A(41) A(51) A(52) A(53) A(61) A(62) A(63) A(64) A(65) A(66) A(71) A(72) A(73) A(74) A(99)
+  A(11) A(12) A(21) A(22) A(23) A(24) A(25) A(26) A(31) A(41) A(51) A(52) A(53) A(61) A(62) A(63) A(64) A(65) A(66) A(71) A(72) A(73) A(74) A(81) A(82) A(83) A(84) A(85) A(86) A(87) A(88) A(89) A(99)
   __CPROVER_assert(c, "K-unlisted");
 }
-void* vp_malloc(uint64_t n){ __CPROVER_assume(n<=256); void *p = malloc(256); __CPROVER_assume(p != 0); return p; }
+void* vp_malloc(uint64_t n){ __CPROVER_assert(n<=256, "K-alloc: a heap request of non-constant size fits the 256-byte block of the model"); void *p = malloc(256); __CPROVER_assume(p != 0); return p; }
